@@ -153,7 +153,10 @@ def render(scn: dict) -> dict:
         lines.append(f"def {func['name']}(**kw):")
         lines.append(f"    sim.mark({func['name']!r}, **kw)")
         if func["sleep"]:
+            lines.append("    mine = kw.get('value')")
             lines.append(f"    task.sleep({func['sleep']})")
+            # after the suspension the run must still see its own arguments and locals
+            lines.append(f"    sim.mark({func['name']!r}, 'after_sleep', mine=mine, **kw)")
         lines.append("")
     return {"pyscript/c04.py": "\n".join(lines) + "\n"}
 
@@ -429,9 +432,20 @@ def oracle(w: World, scn: dict):
     # observed runs
     obs: dict = {}
     violations = []
+    first_of_task: dict = {}
     for mark in w.marks:
         fname = mark["args"][0]
         raw = mark["raw_kw"]
+        if mark["args"][1:2] == ["after_sleep"]:
+            start = first_of_task.get(mark["task"])
+            kw_after = {k: v for k, v in mark["kw"].items() if k != "mine"}
+            if start is None or kw_after != start["kw"] or mark["kw"].get("mine") != start["kw"].get("value"):
+                violations.append({"class": "C04.run_arguments_changed_while_suspended", "sig": {"subsystem": sub},
+                                   "detail": f"{fname}: after task.sleep the run sees kwargs {kw_after} / local "
+                                             f"{mark['kw'].get('mine')}, it started with {start and start['kw']}",
+                                   "t": mark["t"]})
+            continue
+        first_of_task[mark["task"]] = mark
         dec_i = raw.get("dec")
         ctx = raw.get("context")
         ev = by_ctx.get(ctx.id) if ctx is not None else None
